@@ -45,27 +45,44 @@ W7 == <<600, 0, 600, 600, 600, 600, 600, 600, 600, 600, 600, 0, 0, 600, 600, 600
 
 ---------------------------------------------------------------------------
 (* lookups *)
-GL1 == [ty |-> 1, rules |-> << <<2, 3>>, <<3, 4>> >>]                     \* A->B, B->C
-GL2 == [ty |-> 1, rules |-> << <<4, 6>>, <<2, 5>>, <<2, 4>> >>]           \* C->f, A->D (A->C shadowed)
-GL3 == [ty |-> 4, rules |-> << <<9, 6, 7>>, <<10, 6, 8>> >>]              \* f i -> fi, f l -> fl
-GL4 == [ty |-> 4, rules |-> << <<4, 2, 2, 2>>, <<3, 2, 2>>, <<5, 2, 3>> >>] \* AAA->C, AA->B, AB->D
-GL5 == [ty |-> 4, rules |-> << <<3, 2, 2>>, <<4, 2, 2, 2>>, <<2, 2, 11>> >>] \* AA->B first; A acute->A
-GL6 == [ty |-> 1, rules |-> << <<5, 0>>, <<0, 2>>, <<11, 12>> >>]         \* D->.notdef, .notdef->A, acute->grave
-GL7 == [ty |-> 4, rules |-> << <<14, 6, 6, 7>>, <<13, 6, 6>>, <<9, 6, 7>> >>] \* ffi, ff, fi
+GL1 == Lk(1, <<>>, << <<2, 3>>, <<3, 4>> >>)                     \* A->B, B->C
+GL2 == Lk(1, <<>>, << <<4, 6>>, <<2, 5>>, <<2, 4>> >>)           \* C->f, A->D (A->C shadowed)
+GL3 == Lk(4, <<>>, << <<9, 6, 7>>, <<10, 6, 8>> >>)              \* f i -> fi, f l -> fl
+GL4 == Lk(4, <<>>, << <<4, 2, 2, 2>>, <<3, 2, 2>>, <<5, 2, 3>> >>) \* AAA->C, AA->B, AB->D
+GL5 == Lk(4, <<>>, << <<3, 2, 2>>, <<4, 2, 2, 2>>, <<2, 2, 11>> >>) \* AA->B first; A acute->A
+GL6 == Lk(1, <<>>, << <<5, 0>>, <<0, 2>>, <<11, 12>> >>)         \* D->.notdef, .notdef->A, acute->grave
+GL7 == Lk(4, <<>>, << <<14, 6, 6, 7>>, <<13, 6, 6>>, <<9, 6, 7>> >>) \* ffi, ff, fi
 
-GL8 == [ty |-> 2, rules |-> << <<3, 2, 2>>, <<6, 6, 7>>, <<5, 4>> >>]              \* B->A A, f->f i, D->C (multiple)
-GL9 == [ty |-> 2, rules |-> << <<2, 2, 3, 11>> >>]                           \* A->A B acute
+GL8 == Lk(2, <<>>, << <<3, 2, 2>>, <<6, 6, 7>>, <<5, 4>> >>)              \* B->A A, f->f i, D->C (multiple)
+GL9 == Lk(2, <<>>, << <<2, 2, 3, 11>> >>)                           \* A->A B acute
 
-GP1 == [ty |-> 2, rules |-> << <<2, 3, -50, 0, 0, 0>>, <<2, 4, -30, 0, 0, 0>>, <<3, 2, 25, 0, 0, 0>> >>]
-GP2 == [ty |-> 2, rules |-> << <<2, 2, -10, 0, 1, -20>>, <<3, 3, 5, 3, 0, 0>> >>]
-GP3 == [ty |-> 2, rules |-> << <<9, 2, -15, 0, 0, 0>>, <<2, 11, 7, 0, 0, 0>>, <<11, 2, 9, -4, 0, 0>>,
-                               <<0, 0, 11, 0, 0, 0>> >>]
-GP4 == [ty |-> 2, rules |-> << <<2, 3, -70, 0, 0, 0>>, <<2, 3, -1, 0, 0, 0>>, <<6, 7, -8, 0, 1, 6>> >>]
+GP1 == Lk(2, <<>>, << <<2, 3, -50, 0, 0, 0>>, <<2, 4, -30, 0, 0, 0>>, <<3, 2, 25, 0, 0, 0>> >>)
+GP2 == Lk(2, <<>>, << <<2, 2, -10, 0, 1, -20>>, <<3, 3, 5, 3, 0, 0>> >>)
+GP3 == Lk(2, <<>>, << <<9, 2, -15, 0, 0, 0>>, <<2, 11, 7, 0, 0, 0>>, <<11, 2, 9, -4, 0, 0>>,
+                               <<0, 0, 11, 0, 0, 0>> >>)
+GP4 == Lk(2, <<>>, << <<2, 3, -70, 0, 0, 0>>, <<2, 3, -1, 0, 0, 0>>, <<6, 7, -8, 0, 1, 6>> >>)
 
-GP5 == [ty |-> 1, rules |-> << <<2, -40, 0>>, <<9, 13, 5>>, <<3, -45, -2>>, <<2, 99, 0>>, <<11, 6, 0>> >>]  \* single adjustment
-GP6 == [ty |-> 1, rules |-> << <<2, -25, 0>>, <<4, -25, 0>>, <<13, -25, 0>>, <<0, -25, 0>> >>]             \* one value for all
+GP5 == Lk(1, <<>>, << <<2, -40, 0>>, <<9, 13, 5>>, <<3, -45, -2>>, <<2, 99, 0>>, <<11, 6, 0>> >>)  \* single adjustment
+GP6 == Lk(1, <<>>, << <<2, -25, 0>>, <<4, -25, 0>>, <<13, -25, 0>>, <<0, -25, 0>> >>)             \* one value for all
 
-Dummy == [ty |-> 1, rules |-> <<>>]
+\* lookups with flags (GDEF classes), class-based pairs, mark attachment
+GLa == Lk(4, <<"mark">>, << <<9, 6, 7>>, <<5, 2, 3>> >>)            \* f [marks] i -> fi, A [marks] B -> D: marks move behind
+GLb == Lk(1, <<"base">>, << <<2, 3>>, <<11, 12>>, <<9, 10>> >>)     \* base glyphs ignored: only acute->grave, fi->fl
+GLc == Lk(2, <<"lig">>, << <<9, 6, 7>>, <<2, 2, 11>> >>)            \* ligatures ignored: fi stays; A -> A acute
+ClsA == [cov |-> <<2, 3>>, c1 |-> << <<3, 1>> >>, c2 |-> << <<4, 1>>, <<6, 2>> >>, two |-> 0,
+         m |-> << << <<-30, 0, 0>>, <<-20, 0, 0>>, <<1, 2, 0>> >>, << <<7, 0, 0>>, <<-50, 0, 0>>, <<0, 3, 0>> >> >>]
+ClsB == [cov |-> <<2, 4, 9>>, c1 |-> << <<4, 1>>, <<9, 1>> >>, c2 |-> << <<2, 1>> >>, two |-> 1,
+         m |-> << << <<-5, 0, 9>>, <<-15, 0, 3>> >>, << <<6, 1, -2>>, <<8, 0, -4>> >> >>]
+LkC(flags, rules, cls) == [ty |-> 2, flags |-> flags, rules |-> rules, cls |-> cls, bases |-> <<>>]
+GPa == Lk(2, <<"mark">>, << <<2, 3, -50, 0, 0, 0>>, <<2, 2, -10, 0, 1, -20>>, <<6, 7, -8, 0, 0, 0>> >>)  \* kerning across marks
+GPb == LkC(<<>>, << <<2, 3, -77, 0, 0, 0>>, <<5, 2, 4, 0, 0, 0>> >>, <<ClsA>>)     \* class 0 counts; glyph pairs behind
+GPc == LkC(<<"mark">>, << <<2, 2, 33, 0, 0, 0>> >>, <<ClsB, ClsA>>)
+GPd == [ty |-> 4, flags |-> <<>>, rules |-> << <<11, 0, 10, 20>>, <<12, 1, -5, 0>> >>, cls |-> <<>>,
+        bases |-> << <<2, 100, 200, 7, 8>>, <<3, 50, 60, 40, 30>>, <<9, 1, 1, 2, 2>> >>]   \* marks onto A, B, fi
+GPe == Lk(1, <<>>, << <<11, 6, 0>>, <<12, 4, 0>>, <<3, 2, 0>> >>)       \* no flags: acts on marks whatever came before
+GPf == Lk(1, <<"mark">>, << <<2, 5, 1>>, <<11, 50, 0>> >>)              \* marks ignored: only A
+
+Dummy == Lk(1, <<>>, <<>>)
 
 ---------------------------------------------------------------------------
 (* language tags (script list keys as the library spells them) *)
@@ -103,8 +120,8 @@ GLMarkMenu  == << <<>>, <<11, 12>> >>
 GLPlanMenu  == << Pl(0, 0, 0, 0, 0, 0, 0), Pl(0, 0, 0, 0, 0, 0, 0), Pl(0, 0, 0, 0, 0, 0, 0), Pl(2, 2, 1, 0, 0, 0, 0), Pl(3, 3, 2, 0, 0, 0, 0),
                   Pl(0, 0, 0, 2, 2, 1, 0), Pl(0, 0, 0, 3, 2, 2, 0), Pl(2, 2, 1, 2, 2, 1, 0), Pl(3, 3, 3, 2, 2, 2, 0),
                   Pl(4, 3, 2, 3, 3, 2, 0), Pl(1, 1, 1, 1, 1, 1, 0), Pl(3, 2, 3, 1, 1, 1, 0) >>
-GLGsubMenu  == <<GL1, GL2, GL3, GL4, GL5, GL6, GL7, GL8, GL9>>
-GLGposMenu  == <<GP1, GP2, GP3, GP4, GP5, GP6, GP5>>
+GLGsubMenu  == <<GL1, GL2, GL3, GL4, GL5, GL6, GL7, GL8, GL9, GLa, GLb, GLc, GLa>>
+GLGposMenu  == <<GP1, GP2, GP3, GP4, GP5, GP6, GPa, GPb, GPc, GPd, GPe, GPf, GPa, GPd>>
 GLFeatTagsG == <<"liga", "smcp", "ccmp", "test">>
 GLFeatTagsP == <<"kern", "mark", "cpsp">>
 GLLkMenu    == << <<0>>, <<1>>, <<2>>, <<1, 0>>, <<0, 0, 2>>, <<7, 1>>, <<3, 0>> >>
@@ -160,8 +177,8 @@ XLWidthMenu == <<W1>>
 XLMarkMenu  == << <<>>, <<11, 12>> >>
 XLPlanMenu  == << Pl(0, 0, 0, 0, 0, 0, 0), Pl(1, 1, 1, 0, 0, 0, 0), Pl(0, 0, 0, 1, 1, 1, 0), Pl(2, 1, 1, 0, 0, 0, 0) >>
 XLPlanMenuT == XLPlanMenu \o << Pl(1, 1, 1, 1, 1, 1, 0), Pl(1, 1, 2, 0, 0, 0, 0) >>
-XLGsubMenu  == <<GL1, GL3, GL5, GL8>>
-XLGposMenu  == <<GP1, GP3, GP5>>
+XLGsubMenu  == <<GL1, GLa, GL5, GL8>>
+XLGposMenu  == <<GPa, GPd, GPe>>
 XLFeatTagsG == <<"liga", "smcp">>
 XLFeatTagsP == <<"kern">>
 XLLkMenu    == << <<0>>, <<1, 0>> >>
@@ -178,8 +195,8 @@ XLPlanMenuQ == SubSeq(XLPlanMenu, 1, 3)
 XLReqPoolQ  == <<Plain[1]>>
 XLSwMenuGQ  == << Sw(TRUE, <<>>), Sw(FALSE, <<"smcp">>) >>
 XLCharsQ    == {65, 102, 105, 769}
-XLGsubMenuQ == <<GL3, GL8>>          \* f i -> fi (a string that shrinks to ONE glyph), f -> f i (one that grows)
-XLGposMenuQ == <<GP1, GP5>>          \* pair and single adjustment
+XLGsubMenuQ == <<GLa, GL8>>          \* f i -> fi (a string that shrinks to ONE glyph), f -> f i (one that grows)
+XLGposMenuQ == <<GPa, GP5, GPb>>     \* pair across marks, single adjustment, class pairs
 XLLkMenuQ   == << <<0>> >>
 
 (* exhaustive: feature selection, all script lists with <= 3 language systems *)
